@@ -324,6 +324,99 @@ def data_for_tau(tau, d, n=400, seed=0):
     return pd.DataFrame(rs.multivariate_normal(np.zeros(d), R, size=n), columns=[f'v{i}' for i in range(d)])
 
 
+class FitTimeout(BaseException):
+    pass
+
+
+class fit_alarm:
+    """abort a concrete fit that does not return (a construction loop that makes no progress)"""
+
+    def __init__(self, secs):
+        self.secs = secs
+
+    def __enter__(self):
+        import signal
+        import threading
+        self.on = threading.current_thread() is threading.main_thread()
+        if self.on:
+            def h(sig, frm):
+                raise FitTimeout()
+            self.old = signal.signal(signal.SIGALRM, h)
+            signal.setitimer(signal.ITIMER_REAL, self.secs)
+        return self
+
+    def __exit__(self, *a):
+        import signal
+        if self.on:
+            signal.setitimer(signal.ITIMER_REAL, 0)
+            signal.signal(signal.SIGALRM, self.old)
+        return False
+
+
+def tie_tables():
+    """crossed designs: exact-zero Kendall taus between whole groups of columns (ties in the tau ordering)"""
+    import itertools
+    import pandas as pd
+    a = np.array(list(itertools.product(range(4), range(5))), dtype=float)
+    t3 = pd.DataFrame({'v0': a[:, 0], 'v1': a[:, 1], 'v2': a[:, 0] + 0.01 * a[:, 1]})
+    b = np.array(list(itertools.product(range(3), range(3), range(3))), dtype=float)
+    t4 = pd.DataFrame({'v0': b[:, 0], 'v1': b[:, 1], 'v2': b[:, 2], 'v3': b[:, 0] + 0.01 * b[:, 2]})
+    return [t3, t4]
+
+
+def check_table(X, d, tree_type, truncated):
+    """fit the real VineCopula on X (under an alarm) and check the regular-vine structure; returns an error text or None"""
+    v = VineCopula(tree_type)
+    try:
+        with fit_alarm(90):
+            v.fit(X, truncated=truncated)
+    except FitTimeout:
+        return f'VineCopula({tree_type!r}).fit on {d} columns (truncated={truncated}) does not return within 90 s'
+    except Exception as e:
+        return f'VineCopula({tree_type!r}).fit on {d} columns (truncated={truncated}) raises {type(e).__name__}: {e}'
+    errs = structure_errors(v, d, tree_type, truncated)
+    if not errs and tree_type == 'regular':
+        T = np.abs(X.corr(method='kendall').to_numpy())
+        w = sum(T[e.L, e.R] for e in v.trees[0].edges)
+        es = sorted(((T[i, j], i, j) for i in range(d) for j in range(i + 1, d)), reverse=True)
+        comp = list(range(d))
+
+        def fnd(x):
+            while comp[x] != x:
+                x = comp[x]
+            return x
+        best = 0.0
+        for wt, i, j in es:          # Kruskal
+            ri, rj = fnd(i), fnd(j)
+            if ri != rj:
+                comp[ri] = rj
+                best += wt
+        if w < best - 1e-9:
+            errs = [f'first tree weight {w} < maximum spanning tree weight {best}']
+    if errs:
+        return f'VineCopula({tree_type!r}) d={d} truncated={truncated}: {errs[0]}'
+    return None
+
+
+def concrete_wide(tree_type, n_tables=24):
+    """beyond the symbolic bound: random dependence patterns with 5 and 6 columns, all trees; crossed designs with exact-zero taus"""
+    warnings.simplefilter('ignore')
+    rs = np.random.RandomState(20)
+    for k in range(n_tables):
+        d = 5 if k % 2 == 0 else 6
+        tm = {f't{i}{j}': rs.uniform(-0.85, 0.85) for i in range(d) for j in range(i + 1, d)}
+        X = data_for_tau(tm, d, n=120, seed=20 + k)
+        err = check_table(X, d, tree_type, d - 1)
+        if err:
+            return True, err + f' [random table #{k}]', {'wide': k}
+    for X in tie_tables():
+        for tr in (1, 2):
+            err = check_table(X, X.shape[1], tree_type, tr)
+            if err:
+                return True, err + f' [crossed design with exact-zero Kendall taus, {X.shape[1]} columns]', {'wide': 'ties'}
+    return False, '', None
+
+
 def concrete_violation(d, tree_type, truncated, tau=None, seeds=(0, 1, 2)):
     import pandas as pd
     warnings.simplefilter('ignore')
@@ -334,36 +427,17 @@ def concrete_violation(d, tree_type, truncated, tau=None, seeds=(0, 1, 2)):
     for tm in taus:
         for sd in seeds[:2]:
             X = data_for_tau(tm, d, seed=sd)
-            v = VineCopula(tree_type)
-            try:
-                v.fit(X, truncated=truncated)
-            except Exception as e:
-                return True, f'VineCopula({tree_type!r}).fit on {d} columns (truncated={truncated}) raises {type(e).__name__}: {e}', {'tau': tm, 'seed': sd}
-            errs = structure_errors(v, d, tree_type, truncated)
-            if not errs and tree_type == 'regular':
-                T = np.abs(X.corr(method='kendall').to_numpy())
-                w = sum(T[e.L, e.R] for e in v.trees[0].edges)
-                es = sorted(((T[i, j], i, j) for i in range(d) for j in range(i + 1, d)), reverse=True)
-                comp = list(range(d))
-
-                def fnd(x):
-                    while comp[x] != x:
-                        x = comp[x]
-                    return x
-                best = 0.0
-                for wt, i, j in es:          # Kruskal
-                    ri, rj = fnd(i), fnd(j)
-                    if ri != rj:
-                        comp[ri] = rj
-                        best += wt
-                if w < best - 1e-9:
-                    errs = [f'first tree weight {w} < maximum spanning tree weight {best}']
-            if errs:
-                return True, f'VineCopula({tree_type!r}) d={d} truncated={truncated}: {errs[0]}', {'tau': tm, 'seed': sd}
+            err = check_table(X, d, tree_type, truncated)
+            if err:
+                return True, err, {'tau': tm, 'seed': sd}
     return False, '', None
 
 
 def replay(dt):
+    if dt.get('wide'):
+        bad, detail, _ = concrete_wide(dt['type'])
+        print(detail)
+        return bad
     bad, detail, _ = concrete_violation(dt['d'], dt['type'], dt['t'], dt.get('tau'), seeds=(dt.get('seed', 0), 1))
     print(detail)
     return bad
@@ -395,7 +469,12 @@ def run(tier, seed):
                   'regular and direct vines with d = 7, center vines with d = 7']
     ck.assumptions = ['stub contracts above']
     findings_havoc = []
+    t_start = time.time()
+    budget = 900 if tier == 'quick' else 3 * 3600
     for c in cases:
+        if time.time() - t_start > budget:
+            ck.inconcl(f'{c}: not explored, the time budget of the symbolic tier ({budget} s) is used up')
+            continue
         r = run_case((c[0], c[1], c[2], tl))
         if r.get('error'):
             ck.inconcl(f'{c}: harness error {r["error"]}')
@@ -434,5 +513,10 @@ def run(tier, seed):
             bad, detail, info = concrete_violation(d, t, 3)
             if bad:
                 ck.violation(f'{t}:conformance', detail, {'d': d, 'type': t, 't': 3, 'tau': info['tau'], 'seed': info['seed']})
+    for t in ('center', 'direct', 'regular'):
+        n += 26
+        bad, detail, info = concrete_wide(t)
+        if bad:
+            ck.violation(f'{t}:conformance', detail, {'type': t, 'wide': True})
     ck.traces_validated = n
     return ck.finish()
